@@ -46,6 +46,7 @@ func plansFor(prop string, thorough bool) ([]Plan, int) {
 			{Name: "val2-deep", Const: "val2", Kinds: []string{"vote", "seen", "checkin"}, Depth: d(8, 10), MaxBeh: d(0, 0)},
 			{Name: "val1-refused", Const: "val1", Kinds: []string{"seen", "checkin", "badcheckin", "vote", "badvote"}, Depth: d(6, 8), MaxBeh: d(0, 0), Tags: true},
 			{Name: "shrink", Const: "shrink", Kinds: []string{"vote", "seen", "checkin"}, Depth: d(8, 9), MaxBeh: d(0, 0), Edges: true},
+			{Name: "thr", Const: "thr", Kinds: []string{"vote", "seen", "checkin"}, Depth: d(7, 8), MaxBeh: d(0, 0)},
 			{Name: "val6", Const: "val6", Kinds: []string{"seen", "checkin"}, Depth: d(4, 7), SimNum: d(150, 2000), SimDepth: d(40, 60), MaxBeh: d(1500, 30000)},
 		}, 1
 	case "C10":
